@@ -288,6 +288,147 @@ let check_tr line f =
     cmp_line "TR" line [("spec:views after every step", es, rows)]
   | _ -> failwith "tr fields"
 
+
+(* ---------- chess core (C01-C07) ---------- *)
+let promo_char = function None -> "-" | Some Knight -> "n" | Some Bishop -> "b" | Some Rook -> "r" | Some Queen -> "q" | Some _ -> "?"
+let promo_ord = function None -> 0 | Some Knight -> 1 | Some Bishop -> 2 | Some Rook -> 3 | Some Queen -> 4 | Some _ -> 9
+let move_key (m : move) = (int_of_n m.m_src, int_of_n m.m_dst, promo_ord m.m_promo)
+let move_s (m : move) = Printf.sprintf "%d.%d.%s" (int_of_n m.m_src) (int_of_n m.m_dst) (promo_char m.m_promo)
+let moves_sorted (l : move list) = String.concat " " (List.map move_s (List.sort (fun a b -> compare (move_key a) (move_key b)) l))
+let move_of_s s =
+  match String.split_on_char '.' s with
+  | [a; b; p] -> api_mk_move (ni a) (ni b) (match p with "n" -> Some Knight | "b" -> Some Bishop | "r" -> Some Rook | "q" -> Some Queen | _ -> None)
+  | _ -> failwith "move"
+let parse_model (fen : string) : board option =
+  match api_parse_fen_t (bytes_of_string fen) with Ret (POk b) -> Some b | _ -> None
+let ws_idx = function WsPieces -> 0 | WsTurn -> 1 | WsCastleRights -> 2 | WsEnpassant -> 3 | WsHalfMoveClock -> 4
+let verr_s = function MissingKings -> "MissingKings" | InvalidCastleRights -> "InvalidCastleRights" | InvalidEnpassant -> "InvalidEnpassant"
+  | TooManyPieces -> "TooManyPieces" | OpponentInCheck -> "OpponentInCheck"
+let perr_s = function
+  | InvalidPiece (b, p) -> Printf.sprintf "InvalidPiece:%d:%d" (int_of_n b) (int_of_n p)
+  | MissingPiece p -> Printf.sprintf "MissingPiece:%d" (int_of_n p)
+  | MissingWhitespace k -> Printf.sprintf "MissingWhitespace:%d" (ws_idx k)
+  | InvalidTurn b -> Printf.sprintf "InvalidTurn:%d" (int_of_n b)
+  | MissingTurn -> "MissingTurn" | FileOutOfBounds r -> Printf.sprintf "FileOutOfBounds:%d" (int_of_n r)
+  | InvalidEnpassantE (f, r) -> Printf.sprintf "InvalidEnpassant:%d:%d" (int_of_n f) (int_of_n r)
+  | MissingEnpassant -> "MissingEnpassant" | MissingCastleRights -> "MissingCastleRights"
+  | MissingHalfClock -> "MissingHalfClock" | MissingFullClock -> "MissingFullClock" | TrailingBytes -> "TrailingBytes"
+  | BoardValidation e -> "BoardValidation:" ^ verr_s e
+let state_s = function GCheckMate -> "M" | GStaleMate -> "D" | GCheck -> "C" | GRunning -> "R"
+let status_s = function CheckMate -> "M" | Draw -> "D" | Check -> "C" | Running -> "R"
+let board_fields (b : board) =
+  Printf.sprintf "%s\t%s\t%s\t%s\t%s" (string_of_bytes (api_write_fen b)) (hn (api_zobrist b)) (hn b.b_pinned) (hn (api_diff b.b_checkers b.b_pinned)) (hn b.b_zob)
+
+let check_chess line f =
+  match f with
+  | ["PO"; xf; disp; legals; lens; chk; st; zob; pinned; checkers; mz; fresh] ->
+    (match parse_model xf with
+     | None -> cmp_line "PO" line [("model:position-rejected-by-model-parser", "accepted", "rejected")]
+     | Some b ->
+       let pos = api_abs b in
+       let ml = moves_sorted (api_legals b) in
+       let sl = moves_sorted (api_spec_legal_moves pos) in
+       let n = List.length (api_spec_legal_moves pos) in
+       let (glen, gempty) = api_gen_len b in
+       cmp_line "PO" line
+         [("spec:legal-moves(set)", sl, legals); ("model:legal-moves(set)", ml, legals);
+          ("spec:len/size_hint/is_empty", Printf.sprintf "%d:%d:%d:%d" n n n (if n = 0 then 1 else 0), lens);
+          ("model:len", Printf.sprintf "%d:%s" (int_of_n glen) (b01 gempty), Printf.sprintf "%s:%s" (List.hd (String.split_on_char ':' lens)) (List.nth (String.split_on_char ':' lens) 3));
+          ("spec:in_check", b01 (api_spec_in_check pos), chk); ("model:in_check", b01 (api_in_check b), chk);
+          ("spec:state", status_s (api_spec_classify pos), st); ("model:state", state_s (api_state b), st);
+          ("spec:hash-equals-from-scratch-hash", hn (api_zobrist b), norm_hex zob);
+          ("spec:pinned-equals-from-scratch", hn b.b_pinned, norm_hex pinned);
+          ("spec:checkers-equals-from-scratch", hn (api_diff b.b_checkers b.b_pinned), norm_hex checkers);
+          ("spec:piece-hash-equals-from-scratch", hn b.b_zob, norm_hex mz);
+          ("spec:fen-writer", string_of_bytes (api_write_fen b), disp);
+          ("spec:moved-board-indistinguishable-from-reparsed(legals,check,hash,text,debug,eq)", "111111", fresh)])
+  | ["MV"; xf; mv; xf2; zob; pinned; checkers; mz; agree] ->
+    (match parse_model xf with
+     | None -> cmp_line "MV" line [("model:position-rejected-by-model-parser", "accepted", "rejected")]
+     | Some b ->
+       let m = move_of_s mv in
+       if xf2 = "REFUSED" then
+         cmp_line "MV" line [("spec:legal-move-accepted-by-checked-ops", b01 (api_spec_is_legal (api_abs b) m), "0")]
+       else
+         let b' = api_apply b m in
+         let sp = api_spec_make (api_abs b) m in
+         (match parse_model xf2 with
+          | None -> cmp_line "MV" line [("spec:successor-is-acceptable-position", "accepted", "rejected:" ^ xf2)]
+          | Some b2 ->
+            cmp_line "MV" line
+              [("spec:successor = rules make(position, move)", "1", b01 (api_spec_pos_eqb (api_abs b2) sp));
+               ("model:successor fields", string_of_bytes (api_write_fen b'), xf2);
+               ("spec:successor hash = from-scratch hash", hn (api_zobrist b2), norm_hex zob);
+               ("spec:successor pinned = from-scratch", hn b2.b_pinned, norm_hex pinned);
+               ("spec:successor checkers = from-scratch", hn (api_diff b2.b_checkers b2.b_pinned), norm_hex checkers);
+               ("spec:successor piece-hash = from-scratch", hn b2.b_zob, norm_hex mz);
+               ("model:apply = fresh", "1", b01 (api_board_all_eqb b' b2));
+               ("spec:move_new/move_mut/move_into agree", "1", agree)]))
+  | "CK" :: xf :: mv :: flags :: untouched :: rest ->
+    (match parse_model xf with
+     | None -> cmp_line "CK" line [("model:position-rejected-by-model-parser", "accepted", "rejected")]
+     | Some b ->
+       let m = move_of_s mv in
+       let legal = api_spec_is_legal (api_abs b) m in
+       let e = if legal then "1111" else "0000" in
+       let extra = if legal then
+           (match rest with
+            | xf2 :: _ when xf2 <> "-" ->
+              (match parse_model xf2 with
+               | Some b2 -> [("spec:successor = rules make", "1", b01 (api_spec_pos_eqb (api_abs b2) (api_spec_make (api_abs b) m)))]
+               | None -> [("spec:successor acceptable", "accepted", "rejected")])
+            | _ -> [("spec:successor present", "present", "absent")])
+         else [] in
+       cmp_line "CK" line ([("spec:is_legal/move_new/move_mut/move_into accept exactly legal moves", e, flags);
+                            ("spec:refused move leaves boards untouched", "1", untouched);
+                            ("model:is_legal", b01 (api_is_legal b m), String.sub flags 0 1)] @ extra))
+  | ["LG"; xf; set] ->
+    (match parse_model xf with
+     | None -> cmp_line "LG" line [("model:position-rejected-by-model-parser", "accepted", "rejected")]
+     | Some b -> cmp_line "LG" line [("spec:{m | is_legal m} over all 20480 triples", moves_sorted (api_spec_legal_moves (api_abs b)), set)])
+  | ["FP"; h; tag; f1; zob; pinned; checkers; mz] ->
+    let r = api_parse_fen_t (bytes_of_hex h) in
+    (match r with
+     | Trap -> cmp_line "FP" line [("model:parser-model-traps", "no trap", "Trap"); ("spec:never-panics", "OK|E", tag)]
+     | Ret (PErr e) -> cmp_line "FP" line [("model:result", "E\t" ^ perr_s e, tag ^ "\t" ^ f1); ("spec:never-panics", "no-TRAP", if tag = "TRAP" || tag = "TRAP2" then tag else "no-TRAP")]
+     | Ret (POk b) ->
+       cmp_line "FP" line
+         [("model:result", "OK\t" ^ board_fields b, String.concat "\t" [tag; f1; norm_hex zob; norm_hex pinned; norm_hex checkers; norm_hex mz]);
+          ("spec:never-panics", "no-TRAP", if tag = "TRAP" || tag = "TRAP2" then tag else "no-TRAP")]);
+    (* whatever the implementation accepted must be playable, judged by the rules-level predicate *)
+    if tag = "OK" then
+      (match parse_model f1 with
+       | Some b -> cmp_line "FPP" line [("spec:accepted-board-is-playable", "1", b01 (api_spec_playable (api_abs b)))]
+       | None -> cmp_line "FPP" line [("spec:accepted-board-is-playable", "1", "model-rejects:" ^ f1)])
+  | ["BL"; ops; flags; tag; f1; zob; pinned; checkers; mz] ->
+    let opl = List.filter (fun x -> x <> "") (String.split_on_char ' ' ops) in
+    let col i = if i = 0 then White else Black in
+    let pc i = match i with 0 -> Pawn | 1 -> Knight | 2 -> Bishop | 3 -> Rook | 4 -> Queen | _ -> King in
+    let (b, fl) = List.fold_left (fun (b, fl) op ->
+        let rest = String.sub op 1 (String.length op - 1) in
+        match op.[0] with
+        | 't' -> (fst (api_bstep b (BTurn (col (int_of_string rest)))), fl)
+        | 'h' -> (fst (api_bstep b (BHalf (ni rest))), fl)
+        | 'f' -> (fst (api_bstep b (BFull (ni rest))), fl)
+        | 'e' -> (fst (api_bstep b (BEnpassant (if rest = "-" then None else Some (ni rest)))), fl)
+        | 'p' -> (match String.split_on_char '.' rest with
+            | [sq; c; p] -> let (b', ok) = api_bstep b (BPlace (ni sq, col (int_of_string c), pc (int_of_string p))) in (b', fl ^ b01 ok)
+            | _ -> failwith "place")
+        | _ -> (fst (api_bstep b (BRemove (ni rest))), fl)) (api_empty_board, "") opl in
+    let exp = match api_build b with
+      | Inl bb -> "OK\t" ^ board_fields bb
+      | Inr e -> "E\tBoardValidation:" ^ verr_s e ^ "\t0\t0\t0\t0" in
+    let got = String.concat "\t" [tag; f1; norm_hex zob; norm_hex pinned; norm_hex checkers; norm_hex mz] in
+    let playable = if tag = "OK" then
+        (match parse_model f1 with
+         | Some bb -> [("spec:built-board-is-playable", "1", b01 (api_spec_playable (api_abs bb)));
+                       ("spec:builder = parser on the same position", "1", (match api_build b with Inl b1 -> b01 (api_board_all_eqb b1 bb) | _ -> "0"))]
+         | None -> [("spec:built-board-is-playable", "1", "parser-model-rejects:" ^ f1)])
+      else [] in
+    cmp_line "BL" line ([("model:place flags", fl, flags); ("model:build result", exp, got);
+                         ("spec:never-panics", "no-TRAP", if tag = "TRAP" then tag else "no-TRAP")] @ playable)
+  | _ -> failwith "chess fields"
+
 let dispatch line =
   let f = String.split_on_char '\t' line in
   match f with
@@ -297,6 +438,8 @@ let dispatch line =
   | ("TX" | "TS" | "TM" | "PU" | "PS" | "PF" | "PD" | "PN" | "IT") :: _ -> check_text line f
   | ("AB" | "AS") :: _ -> check_abi line f
   | "TR" :: _ -> check_tr line f
+  | ("PO" | "MV" | "CK" | "LG" | "FP" | "BL") :: _ -> check_chess line f
+  | "DIST" :: _ -> ()
   | k :: _ -> bump ("UNKNOWN:" ^ k) 1; diff "UNKNOWN" k "" line
   | [] -> ()
 
